@@ -493,6 +493,19 @@ def run_biject(case, driver):
         # the other direction over the whole grid: every grid tuple in C order -> 0..total-1
         allg = np.array(list(np.ndindex(*dims)), dtype=np.int64).reshape(total, len(dims))
         fwd = [int(x) for x in a.grid_to_int_index(allg)]
+        # the grid tuples in the narrowest integer type that holds every coordinate (uint8 / int8 / int16 ...) and as plain lists: the
+        # flattened index may need more bits than a coordinate does
+        if fwd == list(range(total)):
+            for ndt in (np.uint8, np.int8, np.int16, np.uint16, np.int32):
+                if max(dims) - 1 <= np.iinfo(ndt).max:
+                    alt = [int(x) for x in a.grid_to_int_index(allg.astype(ndt))]
+                    if alt != fwd:
+                        k = next(k for k in range(total) if alt[k] != fwd[k])
+                        fails.append(fail("biject-ravel", "grid_to_int_index(%r as %s) = %d, expected %d" % ([int(x) for x in allg[k]], np.dtype(ndt).name, alt[k], k),
+                                          k=k, impl=alt[k], model=k))
+                        break
+            if not fails and [int(x) for x in a.grid_to_int_index(allg.tolist())] != fwd:
+                fails.append(fail("biject-ravel", "grid_to_int_index of a list of tuples differs from the int64 array", k=0))
         if fwd != list(range(total)):
             k = next(k for k in range(total) if fwd[k] != k)
             fails.append(fail("biject-ravel", "grid_to_int_index(%r) = %d, expected %d" % ([int(x) for x in allg[k]], fwd[k], k), k=k, impl=fwd[k], model=k))
